@@ -12,6 +12,7 @@ import itertools
 LEVEL_TEXT = ("Model-based history monitoring: every answer of a long-lived MappingSchema is compared with a fresh "
               "schema built from the harness' own record of registrations, over all histories up to a length bound "
               "(reduced alphabet) and seeded random histories. Held-on-observed-histories, not a proof.")
+LEVEL_TEXT += (' Registrations without a column mapping are part of the histories (the reference schema holds them through a placeholder column that is stripped from its answers).')
 LEVEL_NOTE = "trusts MappingSchema.__init__ on a fresh object as the reference; universe of 2 catalogs x 2 dbs x 2 tables x 3 columns"
 TECHNIQUE = "runtime monitoring: model-based history checking (live object vs fresh reference after every step)"
 RULE = ("histories of add_table/lookups over a small universe; exhaustive over a reduced "
